@@ -9,7 +9,10 @@ META = {
             "emitted as a text that the RFC 8259 reference parser reads, and that denotes the input's value (integers "
             "exactly under Go literal rules, strings as the unquoted Go string read back through JSON, floats under the "
             "shortest-round-trip law of strconv), with bare keys, trailing commas, comments, raw/escaped strings, signs "
-            "and dotted identifier lists covered by induction on the syntax tree; Unmarshal reports trailing tokens. "
+            "and dotted identifier lists covered by induction on the syntax tree; every document of the documented syntax, "
+            "with every surface choice at token level (bare or quoted keys, trailing commas, signs, Go-style literals, "
+            "dotted lists), is accepted and emitted with its documented value; Unmarshal reports trailing tokens; the "
+            "bytes ToJSON returns are owned by the caller (origin of every []byte result extracted from the source). "
             "Tied to the code by a translator of constants and by differential runs (ToJSON/Unmarshal outputs, "
             "strconv.Unquote, json.Marshal of strings, big.Int literals, encoding/json as reference reader) evaluated in Coq.",
     "note": "Trusted: Coq kernel + vm_compute; translator gen/jsonx.go; harness + shim; strconv/encoding/json/math/big "
